@@ -101,7 +101,7 @@ class Learner(BaseEstimator):
         return sx.sarr(out) if C.symbolic else numpy.array(out, dtype=object)
 
 
-class _NP:
+class _NP(sx.Conversions):
     def __getattr__(self, k):
         return getattr(numpy, k)
 
@@ -149,7 +149,13 @@ def sc_corr(cfg):
 
     def scenario(C):
         Learner.C, Learner.mode = C, cfg["learner"]
-        if C.symbolic:
+        if cfg.get("int_table"):
+            # a table of counts: integer-typed (symbolic ints); the coefficients are reals all the same
+            if C.symbolic:
+                data = sx.int_array([[sx.cur().int(f"d_{i}_{j}", -9, 9) for j in range(nvar)] for i in range(nrow)])
+            else:
+                data = numpy.array([[int(C.inputs.get(f"d_{i}_{j}", (i * 3 + j * 5) % 7 - 2)) for j in range(nvar)] for i in range(nrow)], dtype=numpy.int64)
+        elif C.symbolic:
             data = sx.cur().reals("d", nrow, nvar)
         else:
             data = numpy.array([[float(C.inputs.get(f"d_{i}_{j}", (i * 3 + j * 5) % 7 - 2.5)) for j in range(nvar)] for i in range(nrow)], dtype=object)
@@ -313,6 +319,9 @@ def configs(tier):
         for minmax in (False, True):
             for nvar, rows, draws in ((1, 4, 1), (2, 4, 1), (1, 4, 2)) if tier == "quick" else ((1, 4, 1), (2, 4, 1), (1, 4, 2), (2, 4, 2), (1, 6, 3), (3, 4, 1)):
                 out.append(dict(kind="corr", learner=learner, minmax=minmax, nvar=nvar, rows=rows, draws=draws))
+    # more draws than any early-stopping rule needs to trigger; an integer-typed table
+    out.append(dict(kind="corr", learner="identity", minmax=True, nvar=1, rows=4, draws=4))
+    out.append(dict(kind="corr", learner="free", minmax=False, nvar=2, rows=4, draws=1, int_table=True))
     for minmax in (False, True):
         out.append(dict(kind="corr_real", minmax=minmax))
     for tr, inv in (("log", "exp"), ("square", "none"), ("none", "log"), ("exp", "log")):
